@@ -1135,6 +1135,11 @@ func Evaluate(p *Prog, jobs []*JobRec) (*Eval, *TV) {
 		args[b.Param] = e.convert(fromPlain(Plain(b.E.Val), b.E.T, nil), top.Ins[i].T)
 	}
 	sc := &scope{path: "", index: "", calls: map[string]*TV{}}
+	if p.Top.Mapped {
+		// a map-called top-level pipeline: one instance per element of the literal
+		// collection(s); the result is a collection of the pipeline's outputs
+		return e, e.evalCall(p.Top, sc)
+	}
 	res := e.evalCallable(p.Top, args, sc, "", "", 0, nil)
 	return e, res
 }
